@@ -12,6 +12,9 @@ guard/src/commands/rulegen.rs (the CLI binary's crate):
                        or an insert into the existing set — and between the template value and the recorded string only operations that are
                        the identity on the property's domain (strings without newlines; non-strings rendered by serde_json) are applied, with
                        strings wrapped in one pair of double quotes
+  R-C19-output-starts-empty  every file the CLI opens for output (rulegen --output, parse-tree --output) starts empty: it is created with
+                       File::create / create_new, or by an OpenOptions chain that sets truncate(true) or create_new(true) and never
+                       append(true) — otherwise a shorter second run leaves the tail of an earlier run behind the emitted rules
 """
 import re
 from engine import ai, flow, mirlib as M
@@ -396,8 +399,16 @@ def gen_rules(ctx, cr):
                 key = "it:" + site
                 if mon.get(key, 0) >= 1:
                     return [(("enum", ai.OPTION, 0, ()), mon)]
-                return [(("enum", ai.OPTION, 1, (a.sym(st, site + ":item"),)), mon.set(**{key: 1})), (("enum", ai.OPTION, 0, ()), mon)]
+                return [(("enum", ai.OPTION, 1, (a.sym(st, site + ":item"),)), mon.set(items=(mon.get("items") or 0) + 1, **{key: 1})), (("enum", ai.OPTION, 0, ()), mon)]
             if st.top is not st.frames[0]:
+                return None
+            if p.endswith("for serde_json::Value>::index") and len(args) > 1:
+                idx = a.resolve(st, args[1])
+                return [(("ref", ("X", "MEMBER:%s" % (idx[1] if idx[0] == "str" else "?")), ()), mon)]
+            if p == "serde_json::Value::as_str":
+                v = a.resolve(st, args[0])
+                if v[0] == "ref" and v[1] == ("X", "MEMBER:Type"):
+                    return [(("enum", ai.OPTION, 1, (("sym", "TYPE"),)), mon), (("enum", ai.OPTION, 0, ()), mon.set(no_type=True))]
                 return None
             if p.endswith("BTreeMap::contains_key"):
                 which = receiver_name(f, term["args"][0])
@@ -425,6 +436,9 @@ def gen_rules(ctx, cr):
     for mon, tr in h.results:
         ev = mon.get("ev", ())
         if not ev:
+            # an inner (property, value) pair was taken and nothing was recorded: only legitimate when the resource has no string Type
+            if (mon.get("items") or 0) >= 2 and not mon.get("no_type"):
+                bad.append("a (property, value) pair is dropped without being recorded although the resource has a string Type [%s]" % " > ".join("bb%d(l.%s)" % (t[2], t[3]) for t in tr[-5:]))
             continue
         shape = tuple("%s:%s" % e for e in ev)
         shapes.add(shape)
@@ -513,10 +527,46 @@ def receiver_name(f, operand):
     return "?"
 
 
+def output_starts_empty(ctx, crates):
+    rule = "R-C19-output-starts-empty"
+    n = 0
+    for cr, kind in crates:
+        for k, f in sorted(cr.fns.items()):
+            if f.get("file", "").endswith("_tests.rs") or "::tests::" in k:
+                continue
+            ordinal = 0
+            for bi, t in M.iter_calls(f):
+                p = M.norm_path(t["fn"].get("path", ""))
+                if p in ("std::fs::File::create", "std::fs::File::create_new"):
+                    n += 1
+                    ctx.ob(rule, "%s:%s:%s:%s#%d" % (rule, kind, k, p.split("::")[-1], ordinal), True, "%s truncates / refuses an existing file" % p, fn=f, line=t.get("ln", 0),
+                           sample={"site": k, "how": p} if n == 1 else None)
+                    ordinal += 1
+                elif p == "std::fs::OpenOptions::open":
+                    n += 1
+                    pl = M.op_place(t["args"][0])
+                    opts = {}
+                    if pl is not None:
+                        calls, consts, locs = flow.backward_slice(f, M.place_local(pl))
+                        for c in calls:
+                            cp = M.norm_path(c["fn"].get("path", ""))
+                            if cp.startswith("std::fs::OpenOptions::") and len(c["args"]) == 2:
+                                v = c["args"][1].get("k", {}).get("v") if isinstance(c["args"][1], dict) else None
+                                opts[cp.split("::")[-1]] = v if v is not None else "?"
+                    writes = opts.get("write") in (True, "?") or opts.get("append") in (True, "?")
+                    ok = (not writes) or ((opts.get("truncate") is True or opts.get("create_new") is True) and opts.get("append") is not True)
+                    ctx.ob(rule, "%s:%s:%s:OpenOptions::open#%d" % (rule, kind, k, ordinal), ok,
+                           "opened with %s" % opts + ("" if ok else ": a writable file that is neither truncated nor new keeps the bytes of an earlier, longer output behind what is written now"), fn=f, line=t.get("ln", 0))
+                    ordinal += 1
+    if n < 2 and any("main" in cr.fns for cr, _ in crates):
+        ctx.lost(rule, rule + ":floor", "only %d output-file openings found (floor 2: --output of rulegen and of parse-tree in main)" % n)
+
+
 def run(ctx):
     cr = ctx.bin
     print_rules(ctx, cr)
     gen_rules(ctx, cr)
+    output_starts_empty(ctx, [(ctx.bin, "bin"), (ctx.lib, "lib")] if ctx.bin is not ctx.lib else [(ctx.bin, "bin")])
     # the only producer of rulegen output is print_rules: who is handed the writer in Rulegen::execute
     ex = cr.fns.get("<commands::rulegen::Rulegen as commands::Executable>::execute")
     rule = "R-C19-self-check"
